@@ -27,6 +27,8 @@ type TxSpec struct {
 	Actions     []ActSpec
 	// Actor: index of the actor's address when it is not the sponsor's (a sponsored tx)
 	Actor *int `json:",omitempty"`
+	// AuthPad: filler bytes in the auth encoding (92 bytes without)
+	AuthPad int `json:",omitempty"`
 }
 
 // ActorIdx is the index of the address the actions run for.
@@ -51,7 +53,7 @@ func (s TxSpec) Build() *chain.Transaction {
 	if s.WrongChain {
 		cid = ids.ID{0xde, 0xad}
 	}
-	auth := &StubAuth{SponsorAddr: Addr(s.Sponsor), ActorAddr: Addr(s.ActorIdx()), Compute: s.AuthCompute, Start: s.AuthStart, End: s.AuthEnd, Valid: !s.AuthInvalid}
+	auth := &StubAuth{SponsorAddr: Addr(s.Sponsor), ActorAddr: Addr(s.ActorIdx()), Compute: s.AuthCompute, Start: s.AuthStart, End: s.AuthEnd, Valid: !s.AuthInvalid, Pad: s.AuthPad}
 	tx, err := chain.NewTransaction(chain.Base{Timestamp: s.Expiry, ChainID: cid, MaxFee: s.MaxFee}, actions, auth)
 	if err != nil {
 		panic(err)
